@@ -1,8 +1,9 @@
 (* C01 — A step never runs more invocations at once than its worker limit.
-   Statements only; every proof is `exact <lemma>` from Proofs/EngineCap.v and Proofs/EngineSlots.v. *)
-From Coq Require Import List ZArith Bool PeanoNat.
+   Statements only; every proof is `exact <lemma>` from Proofs/EngineCap.v, Proofs/EngineSlots.v and
+   Proofs/RunnerSlots.v. *)
+From Coq Require Import List ZArith Bool PeanoNat Lia.
 Import ListNotations.
-From WF Require Import Model.Engine Proofs.EngineCap Proofs.EngineSlots.
+From WF Require Import Model.Engine Model.Runner Proofs.EngineCap Proofs.EngineSlots Proofs.RunnerSlots.
 Open Scope Z_scope.
 
 (* The invariant, restated in full so it cannot be quietly weakened elsewhere: per step,
@@ -98,3 +99,72 @@ Example C01_nonvacuous :
   end.
 Proof. vm_compute. repeat split; repeat constructor; auto; intros []; try discriminate; auto. Qed.
 Print Assumptions C01_nonvacuous.
+
+(* ---- the run loop (Model/Runner.v): what is really in flight, for EVERY schedule ----
+   `held r` lists the (step, slot) key of every started-and-unfinished invocation of the run loop state r: worker
+   commands not yet started, started worker tasks, finished tasks whose result was not harvested yet, and results whose
+   tick still sits in the tick buffer.  Spelled out so that the statement below cannot be weakened elsewhere. *)
+Theorem C01_held_is : forall r,
+  held r = map (fun x => (fst (fst x), snd (fst x))) (pending r)
+        ++ map (fun x => (fst (fst x), snd (fst x))) (runningw r)
+        ++ map (fun x => (fst (fst (fst x)), snd (fst (fst x)))) (donew r)
+        ++ flat_map (fun t => match t with TStep n k _ _ => [(n, k)] | _ => [] end) (tbuf r).
+Proof. intros r. reflexivity. Qed.
+Print Assumptions C01_held_is.
+
+(* the environment is unconstrained except for what the engine API guarantees: worker bodies and external senders put
+   only add-event ticks into the mailbox, and one invocation calls collect_events once (one AddCollectedEvent result) *)
+Theorem C01_schedule_is : forall a,
+  action_ok a <->
+  match a with
+  | AWorkerDone _ _ sends rs =>
+      forallb (fun t => match t with TAdd _ _ => true | _ => false end) sends = true /\
+      (length (filter (fun r => match r with RAddColl _ _ => true | _ => false end) rs) <= 1)%nat
+  | ADeliver t => (match t with TAdd _ _ => true | _ => false end) = true
+  | AAdvance _ => True
+  end.
+Proof. intros a. destruct a; cbn; tauto. Qed.
+Print Assumptions C01_schedule_is.
+
+(* For every start state satisfying the invariant, every policy oracle and every schedule of worker completions (in any
+   order, with any result lists), deliveries and clock advances: while the run is live, no two in-flight invocations
+   share a (step, slot) key, and a step has at most num_workers invocations in flight. *)
+Theorem C01_run_loop_in_flight_bounded : forall P s e now acts n w,
+  Keys_ok s -> Inv_state s -> Forall action_ok acts ->
+  Runner.outcome (run_at P s e now acts) = ORunning ->
+  zlookup n (workers (st (run_at P s e now acts))) = Some w ->
+  NoDup (held (run_at P s e now acts)) /\
+  (length (filter (fun x => Z.eqb (fst x) n) (held (run_at P s e now acts))) <= nworkers (w_cfg w))%nat.
+Proof. exact run_inflight_bounded. Qed.
+Print Assumptions C01_run_loop_in_flight_bounded.
+
+(* and every in-flight invocation sits on a slot of its step's in_progress list *)
+Theorem C01_run_loop_in_flight_holds_slot : forall P s e now acts x,
+  Keys_ok s -> Inv_state s -> Forall action_ok acts ->
+  Runner.outcome (run_at P s e now acts) = ORunning -> In x (held (run_at P s e now acts)) ->
+  exists w, zlookup (fst x) (workers (st (run_at P s e now acts))) = Some w /\ In (snd x) (map i_wid (inprogress w)).
+Proof. intros P s e now acts x K Cp F O. exact (so_occ _ (run_slots_ok P s e now acts K Cp F O) x). Qed.
+Print Assumptions C01_run_loop_in_flight_holds_slot.
+
+(* non-vacuity: a 2-worker step given three events has both slots in flight and one event queued while the run is
+   live; after slot 0 finishes, the queued event takes slot 0 again *)
+Example C01_run_loop_nonvacuous :
+  let c := {| accepts := [0]; nworkers := 2; pol := None |} in
+  let s0 := {| running := true;
+               cfg := {| c_handler_for := []; c_handlers := []; c_start := [0]; c_stop := [9];
+                         c_inputreq := [8]; c_ty_stepfailed := 7 |};
+               workers := [(1, {| w_cfg := c; queue := []; inprogress := []; collected := []; waiters := [] |})] |} in
+  let ev i := {| ety := 0; eid := i; eattrs := [] |} in
+  let acts := [ADeliver (TAdd (blank (ev 2)) None); ADeliver (TAdd (blank (ev 3)) None)] in
+  let r := run_at (fun _ _ _ _ => PStop) s0 (ev 1) 100 acts in
+  let r2 := run_at (fun _ _ _ _ => PStop) s0 (ev 1) 100 (acts ++ [AWorkerDone 1 0%nat [] [RResult ONone]]) in
+  Keys_ok s0 /\ Inv_state s0 /\ Forall action_ok (acts ++ [AWorkerDone 1 0%nat [] [RResult ONone]]) /\
+  Runner.outcome r = ORunning /\ held r = [(1, 0%nat); (1, 1%nat)] /\
+  map (fun p => length (queue (snd p))) (workers (st r)) = [1%nat] /\
+  Runner.outcome r2 = ORunning /\ held r2 = [(1, 1%nat); (1, 0%nat)] /\
+  map (fun p => length (queue (snd p))) (workers (st r2)) = [0%nat].
+Proof.
+  cbv zeta. split; [repeat constructor; intros []|]. split; [repeat constructor; cbn; lia|].
+  split; [repeat constructor; cbn; lia|]. vm_compute. repeat split; reflexivity.
+Qed.
+Print Assumptions C01_run_loop_nonvacuous.
